@@ -712,7 +712,7 @@ impl HttpsSession {
 
     fn upgrade_mux(&self, mut mux: MuxTls) -> Option<HttpsStateMachine> {
         debug!("{} mux switching to wss", log_context!(self));
-        let Some(stream) = mux.context.streams.pop() else {
+        let Some(mut stream) = mux.context.streams.pop() else {
             error!(
                 "{} upgrade_mux: no stream attached to the TLS mux session, closing",
                 log_context!(self)
@@ -789,6 +789,19 @@ impl HttpsSession {
         // Unwrap the `SessionTcpStream` that the mux put around every backend
         // TCP socket — `Pipe::backend_socket` is typed `Option<TcpStream>`.
         let backend_socket = backend_socket.stream;
+        // The kawa buffers keep their own cursors: sync the underlying Checkout
+        // buffers so that bytes read behind the HTTP heads (e.g. frames the
+        // backend sent right after its 101) are relayed by the pipe.
+        stream
+            .front
+            .storage
+            .buffer
+            .sync(stream.front.storage.end, stream.front.storage.head);
+        stream
+            .back
+            .storage
+            .buffer
+            .sync(stream.back.storage.end, stream.back.storage.head);
         let mut pipe = Pipe::new(
             stream.back.storage.buffer,
             Some(backend_id),
